@@ -581,6 +581,56 @@ fn tiny(out: &mut Out) {
     }
 }
 
+/// Collective relinearisation-key generation (the two-round protocol of src/multiparty): the key has one RLWE sample per decomposition
+/// modulus, each built on its own common mask a_j drawn from the parties' shared generator.  "No two outputs share their mask polynomial":
+/// (a) exactly one uniform polynomial per component is drawn from the common generator by every party (recorded on the sampling tape) and
+/// they are pairwise distinct, identical across parties; (b) output-based: c1_j - c1_k of the finished key is NOT small — with a shared mask
+/// the difference is a sum of error polynomials (|coefficients| <= 2 * 21 * 2 * parties), with fresh masks it is uniform.
+fn multiparty_masks(out: &mut Out, r: &mut Rng, thorough: bool) {
+    use heathcliff::multiparty::participant::*; use heathcliff::RelinKeys;
+    let cfgs: Vec<(SchemeType, usize, Vec<usize>, usize)> = vec![(SchemeType::BFV, 32, vec![30, 30, 36], 2), (SchemeType::BGV, 16, vec![27, 29, 31, 36], 3), (SchemeType::CKKS, 64, vec![30, 32, 34, 40], 2)];
+    for (ci, (scheme, n, bits, cnt)) in cfgs.into_iter().enumerate() {
+        if !thorough && ci == 2 && r.chance(0, 1) { continue; }
+        let cx = match make_ctx(scheme, n, bits.clone()) { Some(c) => c, None => continue };
+        if !cx.ctx.using_keyswitching() { continue; }
+        let key_qs: Vec<u64> = cx.ctx.key_context_data().unwrap().parms().coeff_modulus().iter().map(|m| m.value()).collect();
+        let kc = key_qs.len() - 1;
+        let common = rand_seed(r);
+        let cls = format!("mp-rlk-s{}n{}k{}p{}", scheme as u8, n, kc, cnt);
+        let res = std::panic::catch_unwind(std::panic::AssertUnwindSafe(|| {
+            let mut parties: Vec<Participant> = (0..cnt).map(|i| Participant::new(cnt, i, cx.ctx.clone(), BlakeRNG::from_seed(PRNGSeed(common)))).collect();
+            hk::arm_tape();
+            let mut protos: Vec<_> = parties.iter_mut().map(|p| p.generate_relin_keys()).collect();
+            let tape = hk::take_tape();
+            let m1: Vec<Vec<u8>> = protos.iter().map(|p| { let mut m = vec![]; p.send_step1(&mut m).unwrap(); m }).collect();
+            for rr in 0..cnt { for ss in 0..cnt { if ss != rr { protos[rr].receive_step1(ss, &mut m1[ss].as_slice()).unwrap(); } } }
+            for p in protos.iter_mut() { p.step2(); }
+            let m2: Vec<Vec<u8>> = protos.iter().map(|p| { let mut m = vec![]; p.send_step2(&mut m).unwrap(); m }).collect();
+            for rr in 0..cnt { for ss in 0..cnt { if ss != rr { protos[rr].receive_step2(ss, &mut m2[ss].as_slice()).unwrap(); } } }
+            let keys: Vec<RelinKeys> = protos.into_iter().map(|p| p.finish()).collect();
+            (tape, keys) }));
+        let (tape, keys) = match res { Ok(x) => x, Err(_) => { out.raw(&format!("!NOTE multiparty_masks {} protocol refused", cls)); continue } };
+        let (_g, samples) = split_tape(tape);
+        let uni: Vec<&Sample> = samples.iter().filter(|s| s.kind == "uniform").collect();
+        let mut why = vec![];
+        if uni.len() != cnt * kc { why.push(format!("{} uniform mask polynomials drawn by {} parties for {} key components (one per component and party expected)", uni.len(), cnt, kc)); }
+        else {
+            for j in 0..kc { for k2 in j + 1..kc { if uni[j].data == uni[k2].data { why.push(format!("components {} and {} use the same common mask", j, k2)); } } }
+            for p in 1..cnt { for j in 0..kc { if uni[p * kc + j].data != uni[j].data { why.push(format!("party {} derives a different common mask {} than party 0", p, j)); } } }
+        }
+        // output based: differences of the c1 components modulo the first key prime, centred
+        let q0 = key_qs[0]; let bound = (2 * 21 * 2 * cnt as u64 + 2) * 4;
+        let c1 = |j: usize| -> Vec<u64> { let ct = keys[0].as_kswitch_keys().data()[0][j].as_ciphertext(); let mut v = ct.poly(1)[..n].to_vec();
+            let t = heathcliff::util::NTTTables::new(n.trailing_zeros() as usize, &Modulus::new(q0)).unwrap(); heathcliff::verif::polysmallmod::intt(&mut v, &t); v };
+        for j in 0..kc { for k2 in j + 1..kc {
+            let (a, b) = (c1(j), c1(k2));
+            let small = (0..n).all(|i| { let d = (a[i] + q0 - b[i]) % q0; d <= bound || q0 - d <= bound });
+            if small { why.push(format!("key components {} and {} share their mask polynomial: c1_{} - c1_{} has only coefficients of magnitude <= {}", j, k2, j, k2, bound)); }
+        } }
+        if why.is_empty() { out.raw(&format!("!OK multiparty_masks {} # {}", cls, cls)); } else { out.raw(&format!("!FAIL multiparty_masks {} common-seed={} :: {} # {}", cls, hex(&common[..8]), why.join("; "), cls)); }
+    }
+}
+
 pub fn run(out: &mut Out, thorough: bool, seed: u64, extra: &[String]) {
     if extra.first().map(|s| s == "--case").unwrap_or(false) && extra.len() >= 2 { replay(out, &extra[1]); return; }
     let mut r = Rng::new(seed);
@@ -656,6 +706,8 @@ pub fn run(out: &mut Out, thorough: bool, seed: u64, extra: &[String]) {
             if n >= 32 && (k == 1 || k == 6 || thorough) { history_real_entropy_threads(out, &cx, &tag); }
         }
     }
+    // ---- collective (multiparty) key generation draws fresh randomness per output component too
+    { let mut r2 = Rng::new(seed ^ 0x16_c011); multiparty_masks(out, &mut r2, thorough); }
     // ---- parameter sets the context accepts whose modulus does not exceed the error bound: errors must be reduced, never refused
     {
       for (n, q) in [(2usize, 5u64), (2, 13), (4, 17)] {
